@@ -46,7 +46,14 @@ Record hcase := HC {
   h_post_outlinks : list bytes;     (* Raw of the returned outlink items *)
   h_matchtab : list (bytes * bool); (* domainscrawl.Match *)
   h_norm_assets : list (bytes * option bytes);    (* NormalizeURL(child, page).String() *)
-  h_norm_outlinks : list (bytes * option bytes)   (* NormalizeURL(outlink, nil).String() *)
+  h_norm_outlinks : list (bytes * option bytes);  (* NormalizeURL(outlink, nil).String() *)
+  (* driver htmlreq: the page sits behind a redirect chain built by the real postprocess() and
+     preprocess(); the two tables above are then the URLs of the REQUESTS that the real
+     preprocess() built (for the children of the page item in its seed tree, for each outlink as a
+     new seed), and h_tree lists the URLs of the items of the chain, seed first, the item that
+     received the page last *)
+  h_pipeline : bool;
+  h_tree : list bytes
 }.
 
 (* ---------- lookups *)
@@ -219,6 +226,14 @@ Definition outlink_due (c : hcase) : bool :=
 (* [html_only] = the theorem's reading (the child made from this very string normalises to the
    expected URL, in a response handed to the HTML extractor); otherwise the property text's:
    some child normalises to the expected URL *)
+(* preprocess() drops a child whose path is empty or "/" ("just a domain"): named exclusion of
+   the pipeline leg (C19 lists it as a finding) *)
+Definition root_excused (c : hcase) (r : ref) : bool :=
+  h_pipeline c && match l_segs (resolve (h_page c) r) with [[]] => true | _ => false end.
+(* DedupeItems drops a fresh child whose URL is that of a non-seed item of the tree (already seen) *)
+Definition tree_excused (c : hcase) (r : ref) : bool :=
+  h_pipeline c && mem (render_loc (resolve (h_page c) r)) (tl (h_tree c)).
+
 Definition resolved_ok (html_only : bool) (c : hcase) (u : purl) : bool :=
   match pu_ref u with
   | None => true
@@ -226,7 +241,8 @@ Definition resolved_ok (html_only : bool) (c : hcase) (u : purl) : bool :=
     if pu_anchor u
     then negb (outlink_due c) || has_value (expected c r) (h_norm_outlinks c)
     else negb (asset_due c) || (html_only && negb (h_html c)) || bytes_eqb (pu_raw u) (page_str c)
-         || (if html_only
+         || root_excused c r || tree_excused c r
+         || (if html_only && negb (h_pipeline c)   (* DedupeItems keeps one child per URL *)
              then obytes_eqb (match lookup (pu_raw u) (h_norm_assets c) with Some o => o | None => None end)
                              (Some (expected c r))
              else has_value (expected c r) (h_norm_assets c))
@@ -246,5 +262,10 @@ Definition mon_requested (c : hcase) : bool :=
 Definition mon_text (c : hcase) : bool :=
   forallb (fun u => negb (in_force c u) || resolved_ok false c u) (purls c).
 
+(* monitor 4 - redirect_chain_followed: the item that received the page has the URL the chain
+   leads to (every hop resolved against its parent) *)
+Definition mon_reached (c : hcase) : bool :=
+  match rev (h_tree c) with u :: _ => bytes_eqb u (page_str c) | [] => negb (h_pipeline c) end.
+
 Definition hmons (l : list hcase) :=
-  mon_idx [mon_extracted; mon_anchors; mon_requested; mon_text] l.
+  mon_idx [mon_extracted; mon_anchors; mon_requested; mon_text; mon_reached] l.
